@@ -73,6 +73,7 @@ def sparse_nus():
     s |= {301, 500, 999, 1000, 5000, 9999, 10000, 49999, 50000, 99997, 99998, 99999}
     # n - 1 for sample sizes that tests and users typically choose (the repository's own tests use 500)
     s |= {399, 499, 599, 749, 1499, 1999, 2499, 4999, 19999}
+    s |= {1023, 4095, 8191, 16383, 65535}          # n a power of two (block sizes of chunked implementations)
     return sorted(s)
 
 def main():
